@@ -65,7 +65,7 @@ Lemma ls_run_ok hk cs fuel alpha1 maxEval :
     (snd (line_search_run NM K F HK CS hk cs fuel alpha1 maxEval)).
 Proof.
   unfold line_search_run.
-  apply (line_search_ok NM K F HK CS ls_scalar_query hk cs (ls_hook_matched NM ls_scalar_query) lshm_ext (lshm_ls hk)).
+  apply (line_search_ok NM K F HK CS ls_scalar_query (ls_scalar_point (A := A)) hk cs (ls_hook_matched NM ls_scalar_query) lshm_ext (lshm_ls hk)).
   apply goodH_nil.
 Qed.
 Lemma ls_stop_l hk cs fuel alpha1 maxEval al tr :
@@ -82,7 +82,7 @@ Lemma ls_cap_l hk cs fuel alpha1 maxEval :
   (n_evals (snd (line_search_run NM K F HK CS hk cs fuel alpha1 maxEval)) <= Z.to_nat maxEval + 2)%nat.
 Proof.
   unfold line_search_run.
-  pose proof (line_search_evals NM K F HK CS ls_scalar_query hk cs fuel alpha1 maxEval []) as H.
+  pose proof (line_search_evals NM K F HK CS ls_scalar_query (ls_scalar_point (A := A)) hk cs fuel alpha1 maxEval []) as H.
   exact H.
 Qed.
 
@@ -95,13 +95,15 @@ Lemma rprop_dense_cap_l (P : rp_params) fuel x0 :
 Proof.
   destruct (rprop_dense_ok NM F HK CS P fuel x0) as (_ & _ & _ & H). rewrite Z.sub_0_r in H. exact H.
 Qed.
-Lemma rprop_dense_stop_partial_l (P : rp_params) fuel x0 x tr :
+Lemma rprop_dense_stop_l (P : rp_params) fuel x0 x tr :
   rprop_dense NM F HK CS P fuel x0 = (Converged x, tr) ->
-  wf tr /\ some_point_passed NM P tr.
+  wf tr /\ stop_ok NM (rp_eps P) tr x.
 Proof.
   intros H. pose proof (rprop_dense_ok NM F HK CS P fuel x0) as R. rewrite H in R.
-  destruct R as (W & _ & S & _). split; [exact W | eapply S; reflexivity].
+  destruct R as (G & _ & S & _). split; [apply (good_wf _ _ _ _ G) | apply S; reflexivity].
 Qed.
+Lemma rprop_dense_hooks_l (P : rp_params) fuel x0 : hooks_ok (snd (rprop_dense NM F HK CS P fuel x0)).
+Proof. destruct (rprop_dense_ok NM F HK CS P fuel x0) as (G & _). apply (good_hooks_ok _ _ _ _ G). Qed.
 
 (* ---------------------------------------------------------------- adam (dense, with gradient) *)
 Lemma adam_stop_l (P : ad_params) fuel x0 x tr :
@@ -112,8 +114,8 @@ Proof.
 Qed.
 Lemma adam_hooks_l (P : ad_params) fuel x0 : hooks_ok (snd (adam_dense NM F HK CS P fuel x0)).
 Proof. destruct (adam_ok NM F HK CS P fuel x0) as (G & _). apply (good_hooks_ok _ _ _ _ G). Qed.
-Lemma adam_cons_partial_l (P : ad_params) fuel x0 :
-  ad_point_accepted P (snd (adam_dense NM F HK CS P fuel x0)) (fst (adam_dense NM F HK CS P fuel x0)).
+Lemma adam_cons_l (P : ad_params) fuel x0 :
+  point_accepted (ad_cons P) (snd (adam_dense NM F HK CS P fuel x0)) (fst (adam_dense NM F HK CS P fuel x0)).
 Proof. apply (adam_ok NM F HK CS P fuel x0). Qed.
 Lemma adam_cap_l (P : ad_params) fuel x0 :
   (n_evals (snd (adam_dense NM F HK CS P fuel x0)) <= Z.to_nat (ad_maxit P))%nat.
